@@ -3,7 +3,13 @@ circom_algebra::modular_arithmetic vs the extracted Gallina mirror
 (Model.Field.eval) on (a) every operand pair of seven small prime fields and
 (b) boundary and seeded random operands of the three shipped primes; and
 directly against the documented semantics (Spec.FieldSpec.spec_exec, proved
-equal to spec) as the violation-search oracle."""
+equal to spec) as the violation-search oracle.  (b') the multiplication
+sequence of `**` (Model.FieldPow) against the implementation's value, and the
+anchor of the mirrored library code.  (c) the operator dispatch of
+expression_impl.rs: closed expressions over literals through the real parser,
+lowering, SSA and value propagation vs the pass-loop mirror
+(Model.FieldDispatch.propagate_lit), the bottom-up dispatch (lit_dispatch) and
+the documented value (Spec.DispatchSpec.doc_eval)."""
 import os
 import re
 import common
@@ -572,7 +578,17 @@ def run(ctx, proofs):
         "num-bigint-dig's BigInt operators (%, /, &, |, ^, modpow, mod_inverse, to_radix_le) behave as Z.rem, Z.quot, Z.land, "
         "Z.lor, Z.lxor, a^b mod p, the canonical inverse and binary digits: observed by the correspondence, not proved",
         "the three shipped constants are prime (hypothesis `prime p` of the division and canonicity theorems)",
-        "wall-clock boundedness is observed (2 s watchdog on large shift counts); the proved bound is on the size of the power of two built",
+        "wall-clock boundedness is observed (2 s watchdog on large shift counts and exponents, 5 s on closed expressions; a case that "
+        "times out is re-run alone with a 20 s limit before it counts); the proved bounds are on the size of the power of two built "
+        "by a shift and on the number of modular multiplications of `**`",
+        "Model.FieldPow mirrors the multiplication SEQUENCE of num-bigint-dig 0.8.4 monty_modpow, a Montgomery product being "
+        "represented by the residue it stands for; the count is proved for the mirror and cannot be observed on the library; that "
+        "this is the code linked is checked by Cargo.lock version + checksum, the sha256 of monty.rs in the cargo registry, the "
+        "window and limb widths and the text of modular_arithmetic::pow (corpus/C16/modpow_anchor.json), not by execution; an even "
+        "modulus takes a library path that is not mirrored (every prime > 2 is odd: proved)",
+        "the dispatch is driven on closed expressions over literals inside `function f() { return E; }` through parser, lowering "
+        "and SSA of the current tree; operands that are variables, phi results, array elements or calls are C06 / C20's subject; "
+        "the mirror of the operator tables is Model.Propagate.infix_values / prefix_values / pv_expr, shared with C06 and C20",
     ]
 
 
